@@ -43,7 +43,9 @@ def scratch_verify(patch, demo):
         rc2, out2 = sh(["git", "apply", patch], cwd=WT)
         log["apply"] = {"rc": rc2, "out": out2[-300:]}
         if rc2 == 0:
-            rc3, out3 = sh(["cargo", "test", "--workspace", "--no-fail-fast", "--offline", "--lib", "--doc", "--test", "trybuild"], cwd=WT)
+            os.remove(os.path.join(WT, "tests", "seed_demo.rs"))
+            rc3, out3 = sh(["cargo", "test", "--workspace", "--no-fail-fast", "--offline"], cwd=WT)
+            shutil.copy(demo, os.path.join(WT, "tests", "seed_demo.rs"))
             ok, n = suite_ok(out3)
             log["suite_patched"] = {"ok": ok, "passed": n, "tail": out3[-400:]}
             rc4, out4 = sh(["cargo", "test", "--offline", "--all-features", "--test", "seed_demo"], cwd=WT)
